@@ -67,7 +67,7 @@ pub fn corr(tier: &str, seed: u64, c: &mut Corr) {
 /// the shared noise-tolerant comparison, with the flat-area budget widened to 0.2 % of the image:
 /// position-dependent primitives (turbulence, lighting) flip isolated interior pixels when a region
 /// coordinate moves by one unit of the 8th decimal
-fn same_image(a: &tiny_skia::Pixmap, b: &tiny_skia::Pixmap, tol: u8) -> (bool, String) {
+pub fn same_image(a: &tiny_skia::Pixmap, b: &tiny_skia::Pixmap, tol: u8) -> (bool, String) {
     let (ok, why) = crate::rend::similar(a, b, tol);
     if ok {
         return (true, why);
@@ -128,7 +128,7 @@ const PROBES: [&str; 44] = [
     r###"<a xlink:href="http://example.org"><rect x="20" y="20" width="50" height="40" fill="black"/></a><switch><rect requiredFeatures="http://www.w3.org/TR/SVG11/feature#Bogus" width="100" height="90" fill="red"/><circle cx="80" cy="60" r="15" fill="blue"/></switch>"###,
 ];
 
-fn render_at(t: &usvg::Tree, scale: f32) -> Option<tiny_skia::Pixmap> {
+pub fn render_at(t: &usvg::Tree, scale: f32) -> Option<tiny_skia::Pixmap> {
     let size = t.size();
     let (w, h) = ((size.width() * scale).ceil().min(400.0).max(1.0) as u32, (size.height() * scale).ceil().min(400.0).max(1.0) as u32);
     pan::catch(|| crate::rend::render(t, w, h, tiny_skia::Transform::from_scale(scale, scale))).ok().flatten()
@@ -174,39 +174,36 @@ pub fn search(tier: &str, seed: u64, s: &mut Search) {
             .find(|f| text.contains(**f))
             .map(|f| f.trim_start_matches('<'))
             .unwrap_or("other");
-        // known causes get their own call-site level signature
-        let feature = if feature == "filter" || feature == "feImage" {
-            let kw = ["SourceGraphic", "SourceAlpha", "BackgroundImage", "BackgroundAlpha", "FillPaint", "StrokePaint"];
-            if kw.iter().any(|k| text.contains(&format!("result=\"{}\"", k)) || text.contains(&format!("result='{}'", k))) {
-                "filter(result-named-like-an-input-keyword)"
-            } else if text.split("type=\"saturate\" values=\"").skip(1).any(|r| r.split('"').next().and_then(|v| v.parse::<f32>().ok()).map(|v| v > 1.0).unwrap_or(false)) {
-                "filter(saturate-above-1)"
-            } else {
-                feature
-            }
-        } else {
-            feature
-        };
+        // diagnosed causes get their own signature, whatever the write variant; anything else is named by
+        // the variant and the construct most likely involved
+        let kw = ["SourceGraphic", "SourceAlpha", "BackgroundImage", "BackgroundAlpha", "FillPaint", "StrokePaint"];
+        let saturate_above_1 = ['"', '\'']
+            .iter()
+            .any(|q| text.split(&format!("type={q}saturate{q} values={q}")).skip(1).any(|r| r.split(*q).next().and_then(|v| v.parse::<f32>().ok()).map(|v| v > 1.0).unwrap_or(false)));
         // a written text whose references do not resolve to exactly one element (C07's clause) cannot
         // round-trip: name that cause instead of the construct
         let mut cv = vec![];
         crate::tree::check_written(&text, "", &mut cv);
         let broken: Option<String> = cv.iter().find(|x| x.sig.contains("-reference:")).map(|x| x.sig.trim_start_matches("C07:").to_string());
-        let feature_owned;
-        let feature = match &broken {
-            Some(b) => {
-                feature_owned = format!("written-reference-broken({})", b);
-                feature_owned.as_str()
-            }
-            None => feature,
+        let label: String = if let Some(b) = &broken {
+            format!("written-reference-broken({})", b)
+        } else if kw.iter().any(|k| text.contains(&format!("result=\"{}\"", k)) || text.contains(&format!("result='{}'", k))) {
+            "filter(result-named-like-an-input-keyword)".to_string()
+        } else if saturate_above_1 {
+            "filter(saturate-above-1)".to_string()
+        } else {
+            format!("{}:{}", vclass, feature)
         };
         let scale = if rng.chance(1, 3) { 2.0 } else { 1.0 };
         let (Some(a), Some(b)) = (render_at(&t, scale), render_at(&t2, scale)) else { return };
         let painted = a.data().chunks(4).any(|p| p[3] != 0);
         s.case(class, key, painted);
         let (ok, why) = same_image(&a, &b, 8);
+        // the renderer rounds a pattern tile to whole pixels (path.rs render_pattern_pixmap): a tile whose
+        // size in pixels sits on x.5 changes by a whole pixel with the last bit of the written transform
+        let label = if !ok && broken.is_none() && on_rounding_boundary(&t, scale) { "pattern(tile-size-on-a-rounding-boundary)".to_string() } else { label };
         if !ok {
-            s.finding(&format!("oracle:C08:round-trip-changes-image:{}:{}", vclass, feature), &format!("[{}] render(parse(write(T))) differs from render(T) at scale {}: {}", vname, scale, why), key);
+            s.finding(&format!("oracle:C08:round-trip-changes-image:{}", label), &format!("[{}] render(parse(write(T))) differs from render(T) at scale {}: {}", vname, scale, why), key);
             return;
         }
         // second round trip
@@ -215,7 +212,7 @@ pub fn search(tier: &str, seed: u64, s: &mut Search) {
         if let Some(c3) = render_at(&t3, scale) {
             let (ok, why) = same_image(&b, &c3, 4);
             if !ok {
-                s.finding(&format!("oracle:C08:second-round-trip-changes-image:{}:{}", vclass, feature), &format!("[{}] the second write/parse changes the image again: {}", vname, why), key);
+                s.finding(&format!("oracle:C08:second-round-trip-changes-image:{}", label), &format!("[{}] the second write/parse changes the image again: {}", vname, why), key);
             }
         }
     };
@@ -246,4 +243,56 @@ pub fn search(tier: &str, seed: u64, s: &mut Search) {
         let key = String::from_utf8_lossy(&d.data).to_string();
         one(s, "shared-definitions", &key, &d.data, &o, &mut rng);
     }
+}
+
+/// does rendering `t` at `scale` size a pattern tile within 0.002 px of a rounding boundary? (hook trace)
+fn on_rounding_boundary(t: &usvg::Tree, scale: f32) -> bool {
+    resvg::verif::trace_start();
+    let _ = render_at(t, scale);
+    let lines = resvg::verif::trace_take();
+    lines.iter().filter(|l| l.starts_with("pattern_in ")).any(|l| {
+        l.split(' ').skip(1).filter_map(|h| u32::from_str_radix(h, 16).ok()).map(f32::from_bits).any(|v| v.is_finite() && ((v - v.floor()) - 0.5).abs() < 0.002)
+    })
+}
+
+/// `vh rt <file> <variant 0-3> <scale>`: one round trip, with the two images written next to the file
+pub fn debug(path: &str, variant: u64, scale: f32) {
+    let data = std::fs::read(path).unwrap();
+    let o = crate::corpus::opts_for(Some(std::path::Path::new(path)));
+    let t = usvg::Tree::from_data(&data, &o).unwrap();
+    let mut w = usvg::WriteOptions::default();
+    match variant {
+        1 => w.id_prefix = Some("rt_".into()),
+        2 => w.preserve_text = true,
+        3 => {
+            w.preserve_text = true;
+            w.id_prefix = Some("p-".into());
+            w.use_single_quote = true;
+        }
+        _ => {}
+    }
+    let text = t.to_string(&w);
+    let mut o2 = crate::corpus::opts_for(None);
+    o2.fontdb = t.fontdb().clone();
+    let t2 = usvg::Tree::from_str(&text, &o2).unwrap();
+    let (a, b) = (render_at(&t, scale).unwrap(), render_at(&t2, scale).unwrap());
+    println!("{:?}", same_image(&a, &b, 8));
+    let (w_, mut x0, mut y0, mut x1, mut y1, mut n) = (a.width() as usize, usize::MAX, usize::MAX, 0, 0, 0);
+    for (k, (p, q)) in a.data().chunks(4).zip(b.data().chunks(4)).enumerate() {
+        if (0..4).any(|c| (p[c] as i32 - q[c] as i32).abs() > 80) {
+            let (x, y) = (k % w_, k / w_);
+            x0 = x0.min(x);
+            y0 = y0.min(y);
+            x1 = x1.max(x);
+            y1 = y1.max(y);
+            n += 1;
+            if n < 12 {
+                println!("({}, {}): {:?} vs {:?}", x, y, p, q);
+            }
+        }
+    }
+    println!("{} px differ by more than 80; box ({}, {})-({}, {}) of {}x{}", n, x0, y0, x1, y1, a.width(), a.height());
+    let _ = a.save_png(format!("{}.a.png", path));
+    let _ = b.save_png(format!("{}.b.png", path));
+    let _ = std::fs::write(format!("{}.written.svg", path), text);
 }
